@@ -5,7 +5,7 @@ from tools.harness import common, route as R
 ID = 'C11'
 TARGETS = ['MindsVerif.Props.C11']
 THEOREMS = ['MindsVerif.Props.C11.' + n for n in (
-    'C11_decision', 'C11_decision_sound', 'C11_names', 'C11_partial_resolution', 'C11_witness_1', 'C11_witness_2',
+    'C11_decision', 'C11_decision_cte', 'C11_witness_1_fixed', 'C11_decision_sound', 'C11_names', 'C11_partial_resolution', 'C11_witness_1', 'C11_witness_2',
     'C11_resolution_full_false')]
 ASSUME = [
     'get_query_info, check_single_integration, prepare_integration_select and the walker are hand-modelled '
@@ -189,20 +189,30 @@ def sel_json(sel):
             [sel_json(s) for s in subs]]
 
 
-def cut(parts):
+def cut(parts, names=(), is_tab=True):
+    if not is_tab and len(parts) == 2 and DB in names:      # alias-aware cut (fixes/C11_2.diff); names=() is the pinned cut
+        return parts
     return parts[1:] if len(parts) > 1 and parts[0].lower() == DB else parts
+
+
+def sel_aliases(sel):
+    tabs, cols, subs = sel
+    out = {a.lower() for _, a in tabs if a}
+    for s in subs:
+        out |= sel_aliases(s)
+    return out
 
 
 def from_clause(tabs, strip):
     return ', '.join('.'.join(cut(p) if strip else p) + (' AS %s' % a if a else '') for p, a in tabs)
 
 
-def sqlite_resolutions(conn, sel, strip, outer=()):
+def sqlite_resolutions(conn, sel, strip, outer=(), names=()):
     """what sqlite says about every column reference, in the model's order"""
     tabs, cols, subs = sel
     out = []
     for c in cols:
-        r = '.'.join(cut(c) if strip else c)
+        r = '.'.join(cut(c, names, False) if strip else c)
         q = 'SELECT %s FROM %s LIMIT 1' % (r, from_clause(tabs, strip))
         for otabs in outer:
             q = 'SELECT (%s) FROM %s LIMIT 1' % (q, from_clause(otabs, strip))
@@ -213,7 +223,7 @@ def sqlite_resolutions(conn, sel, strip, outer=()):
             m = str(e)
             out.append(['ambiguous'] if 'ambiguous' in m else (['notFound'] if 'no such column' in m else ['error', m]))
     for s in subs:
-        out += sqlite_resolutions(conn, s, strip, (tabs,) + tuple(outer))
+        out += sqlite_resolutions(conn, s, strip, (tabs,) + tuple(outer), names)
     return out
 
 
@@ -300,7 +310,8 @@ def run(chk):
         except Exception:
             bump('status/unparsed')
             continue
-        lines.append(json.dumps(dict(op='plan', cat=c.model(), ctes=[R.enc(x) for x in R.cte_names(ast)], node=R.abstract(ast))))
+        lines.append(json.dumps(dict(op='plan', cat=c.model(), ctes=[R.enc(x) for x in R.cte_names(ast)],
+                                     names=[R.enc(x) for x in R.local_names(ast)], node=R.abstract(ast))))
         metas.append(('plan', c, (sql, ast)))
         fs, status = probe_case(c, sql, dbs)
         bump('status/' + status)
@@ -325,7 +336,8 @@ def run(chk):
         except Exception:
             continue
         chk.count((c.key(), sql))
-        lines.append(json.dumps(dict(op='plan', cat=c.model(), ctes=[R.enc(x) for x in R.cte_names(ast)], node=R.abstract(ast))))
+        lines.append(json.dumps(dict(op='plan', cat=c.model(), ctes=[R.enc(x) for x in R.cte_names(ast)],
+                                     names=[R.enc(x) for x in R.local_names(ast)], node=R.abstract(ast))))
         metas.append(('plan', c, (sql, ast)))
     sels = [gen_sel(rng) for _ in range(n_sem)]
     for s in sels:
@@ -340,6 +352,7 @@ def run(chk):
     if outs is not None:
         mfed, mloc = marker_dbs()
         res = {k: [0, 0, None] for k in ('plan', 'sem')}
+        variants = R.Variants()
         for (op, c, arg), o in zip(metas, outs):
             r = res[op]
             r[0] += 1
@@ -350,11 +363,7 @@ def run(chk):
                 sql, ast = arg
                 real = R.real_plan_top(c, ast)
                 msingle = None if o['single'] is None else R.dec(o['single'])
-                if real['single'] != msingle and not isinstance(real['single'], tuple):
-                    why = dict(sql=sql, catalog=c.kwargs(), field='check_single_integration', impl=real['single'], model=msingle)
-                elif msingle is not None and real['idents'] != R.model_idents(o['idents']):
-                    why = dict(sql=sql, catalog=c.kwargs(), field='stripped-identifiers', impl=real['idents'],
-                               model=R.model_idents(o['idents']))
+                variants.plan_case(real, o, dict(sql=sql, catalog=c.kwargs()))
                 bump('plan/%s' % ('pushed' if msingle else 'not-pushed'))
             else:
                 sel = arg
@@ -372,10 +381,21 @@ def run(chk):
                 bump('sem/ok=%s/%s' % (o['ok'], 'same' if got_fed == got_loc else 'changed'))
                 if o['ok'] and got_fed != got_loc:
                     why = why or dict(sel=sel, field='theorem instance T11.1', fed=got_fed, local=got_loc)
+                # the alias-aware cut
+                want_a = sqlite_resolutions(mloc, sel, True, names=sel_aliases(sel))
+                got_a = model_res(o['localA'])
+                if low(want_a) != low(got_a):
+                    why = why or dict(sel=sel, field='local resolution, alias-aware cut', sqlite=want_a, model=got_a)
+                if o['okA'] and got_fed != got_a:
+                    why = why or dict(sel=sel, field='theorem instance T11.1 (alias-aware)', fed=got_fed, local=got_a)
+                bump('semA/ok=%s/%s' % (o['okA'], 'same' if got_fed == got_a else 'changed'))
             if why is not None:
                 r[1] += 1
                 r[2] = r[2] or why
         chk.corr_result('route-plan', res['plan'][0], res['plan'][1], res['plan'][2], dist)
+        okv, which, detail = variants.verdict()
+        chk.oblige('corr:route-variant', 'correspondence', okv, detail)
+        dist['model-variant'] = which
         chk.corr_result('sem-vs-sqlite', res['sem'][0], res['sem'][1], res['sem'][2])
     for c, sql, feats in stmts[:3]:
         chk.samples.append(dict(sql=sql, catalog=c.kwargs(), features=feats))
